@@ -87,7 +87,7 @@ class Check:
             self.inconclusive.append(f"{name}: {st} {res.get('detail') or ''}"[:300])
         elif st == 'error':
             self.errors.append(f"{name}: {res.get('detail')} {res.get('trace', '')[-600:]}")
-        if len(self.samples) < 12 and st in ('unsat', 'holds', 'sat', 'violated'):
+        if sum(1 for x in self.samples if x['kind'] == kind) < 4 and len(self.samples) < 24 and st in ('unsat', 'holds', 'sat', 'violated'):
             self.samples.append({'obligation': name, 'kind': kind, 'structure': jsonable(structure), 'verdict': st,
                                  'formula_size': res.get('formula_size'), 'solver_s': res.get('solver_s'),
                                  'paths': res.get('paths')})
